@@ -19,6 +19,7 @@ fn main() {
     let job = load_job(&args[2]);
     match args[1].as_str() {
         "reader" => cmd_reader(&job),
+        "writer" => cmd_writer(&job),
         other => {
             eprintln!("unknown subcommand {other}");
             std::process::exit(2);
@@ -77,6 +78,17 @@ fn cmd_reader(job: &Value) {
                 run.execute(&ops, &mut t, run_id);
             }
         }
+    }
+    let lines = t.finish();
+    println!("{}", serde_json::json!({"runs": run_id, "events": lines}));
+}
+
+fn cmd_writer(job: &Value) {
+    let mut t = Trace::create(job["out"].as_str().unwrap());
+    let mut run_id = 0usize;
+    for j in job["jobs"].as_array().unwrap() {
+        run_id += 1;
+        vharness::writers::run_writer(j, &mut t, run_id);
     }
     let lines = t.finish();
     println!("{}", serde_json::json!({"runs": run_id, "events": lines}));
